@@ -171,9 +171,28 @@ def _run(V, work, tier):
             lintin.append({"id": cid, "src": src})
             runin.append({"id": cid, "src": src, "cfg": {"nostdlib": True}})
             meta[cid] = ("shadow", p, "plain", src)
+    # the same direct calls at every place a call is evaluated, the binding lists written with parentheses AND with
+    # square brackets (which read as quoted lists but ARE the usual spelling of bindings and clauses)
+    PLACES = ["%s", "(let (OPEN h %s CLOSE) h)", "(let* (OPEN a 1 CLOSE OPEN h %s CLOSE) h)", "(flet (OPEN g () %s CLOSE) (g))", "(labels (OPEN g () %s CLOSE) (g))",
+              "(cond OPEN (nil? %s) 1 CLOSE OPEN else 2 CLOSE)", "(handler-bind (OPEN my-c (lambda (c &rest r) %s) CLOSE) (error 'my-c 1))",
+              "(let (OPEN f (lambda () %s) CLOSE) (funcall f))", "(list 1 (if true %s 0))", "(let (OPEN x 1 CLOSE) (let* (OPEN y (list %s) CLOSE) y))",
+              "(progn (defun wrap () %s) (wrap))", "(dotimes (i 1) %s)", "(and true %s)", "(thread-first 1 (list %s))"]
+    CALLS = [("car", "(car '(1) '(2))"), ("car", "(car '(1))"), ("car", "(car)"), ("add2", "(add2 1)"), ("add2", "(add2 1 2)"), ("add2", "(add2 1 2 3)"), ("cons", "(cons 1)"), ("if", "(if 1 2)")]
+    for pl in PLACES:
+        for style in ("paren", "bracket"):
+            if style == "bracket" and "OPEN" not in pl:
+                continue
+            o, c = ("(", ")") if style == "paren" else ("[", "]")
+            for head, call in CALLS:
+                cid = "p%d" % n
+                n += 1
+                src = "(defun add2 (a b) (+ a b))\n" + (pl.replace("OPEN ", o).replace(" CLOSE", c) % call)
+                lintin.append({"id": cid, "src": src})
+                runin.append({"id": cid, "src": src, "cfg": {"nostdlib": True}})
+                meta[cid] = ("place", {"k": -1, "head": head, "place": pl, "style": style}, "plain", src)
     lints = {r["id"]: r for r in driver_json(binary, ["lint"], lintin)}
     runs = {r["id"]: r["runs"][0]["evals"][0] for r in driver_json(binary, ["run"], runin)}
-    cnt = {"shape": 0, "registry": 0, "shadow": 0}
+    cnt = {"shape": 0, "registry": 0, "shadow": 0, "place": 0}
     for cid, (kind, p, mode, src) in meta.items():
         cnt[kind] += 1
         L = lints[cid]
@@ -181,6 +200,16 @@ def _run(V, work, tier):
             raise MachineryError("lint could not parse a generated program: %s\n%s" % (L["err"], src))
         diags = [d for d in (L.get("diags") or []) if d["analyzer"] in ("builtin-arity", "user-arity", "if-arity")]
         ev = runs[cid]
+        if kind == "place":
+            head = p["head"]
+            reported = any(d["msg"].startswith(head + " ") for d in diags)
+            dyn = classify(ev)
+            tag = "%s written with %s bindings at %s" % (src.splitlines()[-1], p["style"], p["place"])
+            if reported and dyn == "ok":
+                V.add(None, "lint reports a call that binds at run time (%s)" % tag, {"src": src, "diags": diags})
+            if not reported and dyn == "arity":
+                V.add(None, "lint accepts a call that fails with invalid number of arguments (%s)" % tag, {"src": src})
+            continue
         if kind in ("shape", "registry"):
             head = "f" if kind == "shape" else p["name"]
             reported = any(d["msg"].startswith(head + " ") for d in diags)
